@@ -44,6 +44,8 @@ struct Template {
 }
 
 pub const SECOND_SYSTEM_CONDITIONS: &str = "Consignas vivienda";
+pub const OWN_MATERIAL: &str = "Ladrillo propio 24 cm";
+pub const OWN_LAYERS: &str = "Muro propio";
 
 fn template() -> &'static Template {
     static T: OnceLock<Template> = OnceLock::new();
@@ -75,6 +77,9 @@ fn template() -> &'static Template {
                 extra.push('\n');
             }
         }
+        // a material and a composition defined by the project itself (the shipped compositions only use catalogue
+        // materials): the wall on the second edge of every storey is built of it
+        extra.push_str(&format!("\"{}\" = MATERIAL\n    TYPE = PROPERTIES\n    CONDUCTIVITY = 0.5\n    DENSITY = 1000\n    SPECIFIC-HEAT = 1000\n    ..\n\"{}\" = LAYERS\n    MATERIAL = (\"{}\")\n    THICKNESS = ( 0.24)\n    ..\n", OWN_MATERIAL, OWN_LAYERS, OWN_MATERIAL));
         Template { prefix: format!("{}<![CDATA[", &t[..a]), suffix: format!("]]>{}", &t[b..]), kept_bdl: format!("{}\n{}", kept.join("\n"), extra) }
     })
 }
@@ -123,8 +128,13 @@ pub fn geometry_bdl(s: &Spec) -> String {
                 continue;
             }
             let w = wall_name(k, i);
-            t.push_str(&format!("\"{}\" = EXTERIOR-WALL\n    ABSORPTANCE = 0.6\n    CONSTRUCTION = \"Fachada por defecto D0.60\"\n    LOCATION = SPACE-V{}\n    ..\n", w, i + 1));
-            cons(&mut t, "Fachada por defecto D0.60", "Fachada por defecto D");
+            if i == 1 {
+                t.push_str(&format!("\"{}\" = EXTERIOR-WALL\n    ABSORPTANCE = 0.6\n    CONSTRUCTION = \"{}0.60\"\n    LOCATION = SPACE-V{}\n    ..\n", w, OWN_LAYERS, i + 1));
+                cons(&mut t, &format!("{}0.60", OWN_LAYERS), OWN_LAYERS);
+            } else {
+                t.push_str(&format!("\"{}\" = EXTERIOR-WALL\n    ABSORPTANCE = 0.6\n    CONSTRUCTION = \"Fachada por defecto D0.60\"\n    LOCATION = SPACE-V{}\n    ..\n", w, i + 1));
+                cons(&mut t, "Fachada por defecto D0.60", "Fachada por defecto D");
+            }
             if i == 0 && s.window > 0 {
                 t.push_str(&format!(
                     "\"{}_V\" = WINDOW\n    X = {}\n    Y = {}\n    SETBACK = {}\n    HEIGHT = {}\n    WIDTH = {}\n    GAP = \"Doble -- Mrpt - Gris claro\"\n    COEFF = ( 1.000000, 1.000000, 1.000000, 1.000000)\n    ..\n",
